@@ -1,21 +1,27 @@
 //! C11 — Concurrent store operations behave as if executed one at a time.
 //!
-//! One real `TensorStore` (plain, or `open_durable` on the simulated disk),
-//! 2-8 threads under the baton scheduler. Every thread issues put / get /
+//! One real `TensorStore`, built the way the case says (plain / capacity hint /
+//! Bloom filter / instrumentation / both; `open_durable[_with_bloom]` on the
+//! simulated disk with the case's `WalConfig` knobs; optionally dropped and
+//! `recover[_with_bloom]`ed after the setup), 2-8 threads under the baton scheduler. Every thread issues put / get /
 //! delete / exists / scan(prefix) (put_durable / delete_durable when the log is
 //! on) on a few contended keys of every key class. Thread switches happen at
 //! operation boundaries and at the `neumann_verif` hook sites inside
 //! `SlabRouter`, `MetadataSlab` and `CacheRing` (between the slabs an embedding
 //! operation touches, between `exists` and the removal in `delete`, between
 //! shards / sources of a scan, between the log append and the in-memory apply
-//! of a durable write).
+//! of a durable write), at every slab-lock acquisition (`store.lock`) and at the
+//! Bloom filter update (`store.bloom.add`).
 //!
 //! Oracle (1): the invoke/return history (stamped with the kernel's sequence
 //! numbers) must be linearizable against the store's *sequential* semantics
 //! (per-key register; scan = atomic read of the key set under a prefix),
 //! decided by a Wing-Gong/Lowe search with memoisation.
-//! Oracle (2), log on: after all threads joined the store is dropped without a
-//! crash, recovered from the log, and must equal what readers last saw.
+//! A write the store rejected (`Err`: the log refused the record) must have no
+//! effect any reader can see.
+//! Oracle (2), log on: after all threads joined the log is synced (batched /
+//! manual modes), the store is dropped (clean, or power loss), recovered from
+//! the log, and must equal what readers last saw.
 
 use crate::ctx::RunCtx;
 use crate::driver::{drop_chunks, RunOut, Scenario, Tier, Violation};
@@ -26,7 +32,7 @@ use serde::{Deserialize, Serialize};
 use serde_json::{json, Value};
 use std::collections::{BTreeMap, BTreeSet, HashSet};
 use std::sync::{Arc, Mutex};
-use tensor_store::{ScalarValue, TensorData, TensorStore, TensorValue, WalConfig};
+use tensor_store::{ScalarValue, SyncMode, TensorData, TensorStore, TensorValue, WalConfig};
 
 // ---------------------------------------------------------------------------
 // key universe
@@ -53,9 +59,12 @@ impl Kc {
     }
 }
 
-pub const NK: usize = 12;
+pub const NK: usize = 14;
 /// The contended keys. First bytes spread over metadata shards 0 (`p`),
-/// 5 (`e`, `u`), 14 (`n`), 4 (`t`); `_cache:` keys live in the cache ring.
+/// 5 (`e`, `u`), 14 (`n`), 4 (`t`), 15 (`_`); `_cache:` keys live in the cache
+/// ring. The last two are plain keys that share a proper prefix of a class
+/// prefix with keys of that class (`_cache`, `emb`) without belonging to it.
+/// (New keys are appended: operations of old replay files keep their meaning.)
 pub const KEYS: [(&str, Kc); NK] = [
     ("plain:a", Kc::Plain),
     ("plain:b", Kc::Plain),
@@ -69,10 +78,17 @@ pub const KEYS: [(&str, Kc); NK] = [
     ("table:t:2", Kc::Table),
     ("_cache:c", Kc::Cache),
     ("_cache:d", Kc::Cache),
+    ("_cachestats", Kc::Plain),
+    ("embassy", Kc::Plain),
 ];
 
-/// scan prefixes: (prefix, stable name)
-pub const PREFIXES: [(&str, &str); 8] = [
+/// scan prefixes: (prefix, stable name used in violation classes). Several
+/// prefixes of one shape share a name, which keeps the set of classes closed.
+/// Shapes: the empty prefix; the class prefixes; proper prefixes of every class
+/// prefix (down to one byte); prefixes longer than a class prefix (a whole
+/// key); prefixes that match no key of the universe. (The first 8 entries are
+/// the original table: `Scan { p }` of old replay files keeps its meaning.)
+pub const PREFIXES: [(&str, &str); 44] = [
     ("", "all"),
     ("plain:", "plain"),
     ("emb:", "emb"),
@@ -81,7 +97,54 @@ pub const PREFIXES: [(&str, &str); 8] = [
     ("_cache:", "cache"),
     ("e", "e"),
     ("edge:", "edge"),
+    // proper prefixes of class prefixes
+    ("p", "sub-plain"),
+    ("pla", "sub-plain"),
+    ("plain", "sub-plain"),
+    ("em", "e"),
+    ("emb", "e"),
+    ("n", "sub-node"),
+    ("nod", "sub-node"),
+    ("node", "sub-node"),
+    ("ed", "sub-edge"),
+    ("edge", "sub-edge"),
+    ("t", "sub-table"),
+    ("tab", "sub-table"),
+    ("table", "sub-table"),
+    ("table:", "sub-table"),
+    ("table:t", "sub-table"),
+    ("_", "sub-cache"),
+    ("_c", "sub-cache"),
+    ("_cach", "sub-cache"),
+    ("_cache", "sub-cache"),
+    ("u", "sub-user"),
+    ("user", "sub-user"),
+    ("user:", "user"),
+    // longer than a class prefix
+    ("plain:a", "key-plain"),
+    ("emb:a", "emb"),
+    ("node:1", "key-graph"),
+    ("edge:1", "key-graph"),
+    ("table:t:1", "key-table"),
+    ("_cache:c", "key-cache"),
+    ("user:x", "key-plain"),
+    ("_cachestats", "key-plain"),
+    // matching nothing
+    ("zz", "none"),
+    ("plain:zz", "none"),
+    ("_cache:zz", "none"),
+    ("emb:zz", "none"),
+    ("plain:a:more", "none"),
+    ("_blob:", "none"),
 ];
+
+/// index of the first "matching nothing" prefix
+const FIRST_NONE_PREFIX: usize = 38;
+
+/// The key-class prefixes the router classifies by; a scan prefix that is a
+/// proper prefix of one of them can match keys of that class although
+/// `classify_key(prefix)` says otherwise.
+const CLASS_PREFIXES: [&str; 5] = ["emb:", "node:", "edge:", "table:", "_cache:"];
 
 fn key_of(k: u8) -> (usize, &'static str, Kc) {
     let i = k as usize % NK;
@@ -119,12 +182,89 @@ pub enum Op {
     Del { k: u8 },
     Exists { k: u8 },
     Scan { p: u8 },
+    /// `TensorStore::sync` (flush + fsync of the log; nothing without a log)
+    Sync,
+}
+
+/// How the store under test is constructed (part of the case).
+#[derive(Serialize, Deserialize, Clone, Debug, Default, PartialEq)]
+pub struct Build {
+    /// Bloom filter in front of get/exists: `(expected_items, false-positive
+    /// rate in 1/1000)`; `expected_items == 0` = `with_default_bloom_filter`
+    /// (plain stores). Durable: `open_durable_with_bloom` / `recover_with_bloom`.
+    #[serde(default)]
+    pub bloom: Option<(u32, u16)>,
+    /// access instrumentation with this sample rate (plain stores only: the
+    /// durable constructors offer none)
+    #[serde(default)]
+    pub instr: Option<u32>,
+    /// `with_capacity` hint (plain stores without filter and instrumentation)
+    #[serde(default)]
+    pub capacity: Option<u32>,
+    /// durable only: after the setup the store is synced, dropped and rebuilt
+    /// with `recover` / `recover_with_bloom`; the threads run on the recovered store
+    #[serde(default)]
+    pub reopen: bool,
+}
+
+/// `WalConfig` knobs of a durable case.
+#[derive(Serialize, Deserialize, Clone, Debug, PartialEq)]
+pub struct WalKnobs {
+    /// 0: the default (512 MB, auto_rotate on: no append ever fails for size).
+    /// Otherwise `max_size_bytes` with `auto_rotate: false`: once the log is
+    /// full, durable writes are rejected with an error.
+    #[serde(default)]
+    pub max_size: u64,
+    /// 0 = `SyncMode::Immediate`, 255 = `Manual`, else `Batched { max_entries }`
+    #[serde(default)]
+    pub sync: u8,
+    /// `enable_checksums` and `verify_on_replay`
+    #[serde(default = "yes")]
+    pub checksums: bool,
+    /// the crash after quiescence is a power loss (un-fsynced bytes are cut)
+    /// instead of a clean drop
+    #[serde(default)]
+    pub power_loss: bool,
+}
+
+fn yes() -> bool {
+    true
+}
+
+impl Default for WalKnobs {
+    fn default() -> Self {
+        WalKnobs { max_size: 0, sync: 0, checksums: true, power_loss: false }
+    }
+}
+
+impl WalKnobs {
+    fn config(&self) -> WalConfig {
+        let mut cfg = WalConfig::default();
+        if self.max_size > 0 {
+            cfg.max_size_bytes = self.max_size;
+            cfg.auto_rotate = false;
+        }
+        cfg.sync_mode = match self.sync {
+            0 => SyncMode::Immediate,
+            255 => SyncMode::Manual,
+            n => SyncMode::Batched { max_entries: n as usize },
+        };
+        cfg.enable_checksums = self.checksums;
+        cfg.verify_on_replay = self.checksums;
+        cfg
+    }
 }
 
 #[derive(Serialize, Deserialize, Clone, Debug)]
 pub struct Case {
-    /// true: `open_durable` on the simulated disk, writes are the durable forms
+    /// true: a durable store on the simulated disk, writes are the durable forms
     pub durable: bool,
+    /// store construction variant (old replay files: `TensorStore::new` / `open_durable`)
+    #[serde(default)]
+    pub build: Build,
+    /// log configuration (old replay files: `WalConfig::default()`)
+    #[serde(default)]
+    pub wal: WalKnobs,
     /// executed one after the other before the threads start
     pub setup: Vec<Op>,
     pub threads: Vec<Vec<Op>>,
@@ -161,6 +301,7 @@ enum Res {
     Del(Result<(), String>),
     Exists(bool),
     Scan(Vec<String>),
+    Sync(Result<(), String>),
 }
 
 #[derive(Clone, Debug)]
@@ -192,7 +333,14 @@ fn exec(store: &TensorStore, durable: bool, op: &Op) -> Res {
             v.sort();
             Res::Scan(v)
         },
+        Op::Sync => Res::Sync(store.sync().map_err(|e| e.to_string())),
     }
+}
+
+/// An error result of a write that means "the log refused the record" (as
+/// opposed to delete's NotFound).
+fn is_log_error(e: &str) -> bool {
+    e.contains("WAL error")
 }
 
 fn op_short(op: &Op) -> String {
@@ -202,6 +350,7 @@ fn op_short(op: &Op) -> String {
         Op::Del { k } => format!("delete({})", key_of(*k).1),
         Op::Exists { k } => format!("exists({})", key_of(*k).1),
         Op::Scan { p } => format!("scan({:?})", prefix_of(*p).0),
+        Op::Sync => "sync()".into(),
     }
 }
 
@@ -219,7 +368,10 @@ fn res_short(res: &Res) -> String {
         Res::Get(None) => "not-found".into(),
         Res::Get(Some(d)) => format!("value(_u={:?},h={:08x})", data_u(d), crate::rng::hash_str(&canon_data(d)) as u32),
         Res::Del(Ok(())) => "ok".into(),
+        Res::Del(Err(e)) if is_log_error(e) => format!("err({e})"),
         Res::Del(Err(_)) => "not-found".into(),
+        Res::Sync(Ok(())) => "ok".into(),
+        Res::Sync(Err(e)) => format!("err({e})"),
         Res::Exists(b) => format!("{b}"),
         Res::Scan(v) => format!("{v:?}"),
     }
@@ -251,7 +403,15 @@ pub enum HKind {
     Exists { k: usize, seen: bool },
     /// atomic read of the set of present keys among `mask`
     Scan { mask: u16, seen: u16 },
+    /// a put / delete the store rejected with an error (the log refused the
+    /// record): no effect
+    Rejected { k: usize },
+    /// an operation without effect on the key space (`sync`)
+    Nop,
 }
+
+/// model value of a key under `Mode::taint` after a rejected write on it
+const TAINT: u32 = u32::MAX;
 
 #[derive(Clone, Debug)]
 pub struct HOp {
@@ -279,10 +439,28 @@ pub enum Lin {
 /// absent is always explainable (the entry was dropped just before it); what a
 /// cache key may never do is show a value that was not the last one written,
 /// or be present without a put.
+///
+/// A write that returned an error (`Rejected`) has no effect: "a read never
+/// returns a value that was never written". `Mode::taint` (diagnosis only)
+/// instead lets a rejected write leave the key in an arbitrary state until the
+/// next successful write: a history that only this explains is reported as
+/// `rejected-write-visible`.
 fn apply(st: &State, kind: &HKind, mode: Mode) -> Option<State> {
     let mut s = *st;
     let evictable = |k: usize| mode.cache_evicts && KEYS[k].1 == Kc::Cache;
     match kind {
+        HKind::Nop => Some(s),
+        HKind::Rejected { k } => {
+            if mode.taint & (1 << *k) != 0 {
+                s[*k] = TAINT;
+            }
+            Some(s)
+        },
+        HKind::Get { k, .. } | HKind::Exists { k, .. } if s[*k] == TAINT => Some(s),
+        HKind::Del { k, .. } if s[*k] == TAINT => {
+            s[*k] = 0;
+            Some(s)
+        },
         HKind::Put { k, val } => {
             s[*k] = *val;
             Some(s)
@@ -325,6 +503,9 @@ fn apply(st: &State, kind: &HKind, mode: Mode) -> Option<State> {
                     continue;
                 }
                 let listed = seen & (1 << i) != 0;
+                if s[i] == TAINT {
+                    continue;
+                }
                 if listed != (s[i] != 0) {
                     if !listed && evictable(i) {
                         s[i] = 0;
@@ -338,18 +519,46 @@ fn apply(st: &State, kind: &HKind, mode: Mode) -> Option<State> {
     }
 }
 
+/// Diagnosis only (which class a non-linearizable history is reported under).
+/// Accepted puts on an `emb:` key are known not to be atomic (three slabs, no
+/// common lock: the key is listed before its value is readable). A history on
+/// such a key that is explained when every *accepted* put may leave the key in
+/// an arbitrary state from its invocation on — the rejected writes having no
+/// effect — belongs to that root cause, also when a rejected write happens to
+/// be in flight at the same time; only what this does not explain is
+/// attributed to a rejected write.
+fn explained_by_nonatomic_emb_puts(key: usize, sub: &[HOp], verdict: Mode) -> bool {
+    if KEYS[key].1 != Kc::Emb {
+        return false;
+    }
+    let mut v: Vec<HOp> = Vec::new();
+    for o in sub {
+        match o.kind {
+            HKind::Rejected { .. } => {},
+            HKind::Put { k, .. } if k == key => {
+                v.push(HOp { inv: o.inv, ret: o.ret, kind: HKind::Rejected { k } });
+                v.push(o.clone());
+            },
+            _ => v.push(o.clone()),
+        }
+    }
+    matches!(check_lin(&v, Mode { taint: 1 << key, ..verdict }, BUDGET), Lin::Yes)
+}
+
 #[derive(Clone, Copy, Debug, PartialEq, Eq)]
 pub struct Mode {
     /// delete's Ok/NotFound result is not judged (diagnosis only)
     pub relax_delete: bool,
     /// `_cache:` keys may be dropped by the store at any time
     pub cache_evicts: bool,
+    /// keys (bit mask) on which a rejected write leaves an arbitrary state (diagnosis only)
+    pub taint: u16,
 }
 
 /// the verdict mode
-pub const VERDICT: Mode = Mode { relax_delete: false, cache_evicts: true };
+pub const VERDICT: Mode = Mode { relax_delete: false, cache_evicts: true, taint: 0 };
 /// every key a strict register (used for observations and the checker self-test)
-pub const STRICT: Mode = Mode { relax_delete: false, cache_evicts: false };
+pub const STRICT: Mode = Mode { relax_delete: false, cache_evicts: false, taint: 0 };
 
 struct Search<'a> {
     ops: &'a [HOp],
@@ -421,8 +630,8 @@ const BUDGET: u64 = 400_000;
 
 fn kind_key(k: &HKind) -> Option<usize> {
     match k {
-        HKind::Put { k, .. } | HKind::Get { k, .. } | HKind::Del { k, .. } | HKind::Exists { k, .. } => Some(*k),
-        HKind::Scan { .. } => None,
+        HKind::Put { k, .. } | HKind::Get { k, .. } | HKind::Del { k, .. } | HKind::Exists { k, .. } | HKind::Rejected { k } => Some(*k),
+        HKind::Scan { .. } | HKind::Nop => None,
     }
 }
 
@@ -457,24 +666,50 @@ struct Judged {
 /// runs; `STRICT` for single-thread runs, where the cache ring, far below its
 /// capacity, has no reason to drop anything).
 fn judge(hist: &[Rec], verdict: Mode) -> Judged {
-    // value ids: canon of every written value, per key
+    // value ids: canon of every written value, per key. A put that returned an
+    // error wrote nothing: its value is kept apart.
     let mut written: Vec<BTreeMap<String, u32>> = vec![BTreeMap::new(); NK];
     let mut written_u: Vec<BTreeSet<i64>> = vec![BTreeSet::new(); NK];
+    let mut rejected: Vec<BTreeMap<String, u32>> = vec![BTreeMap::new(); NK];
     for r in hist {
-        if let Op::Put { k, v, u } = &r.op {
+        if let (Op::Put { k, v, u }, Res::Put(res)) = (&r.op, &r.res) {
             let (i, _, kc) = key_of(*k);
-            written[i].insert(canon_data(&value_for(kc, *v, *u)), *u);
-            written_u[i].insert(i64::from(*u));
+            if res.is_ok() {
+                written[i].insert(canon_data(&value_for(kc, *v, *u)), *u);
+                written_u[i].insert(i64::from(*u));
+            } else {
+                rejected[i].insert(canon_data(&value_for(kc, *v, *u)), *u);
+            }
         }
     }
     let mut hops: Vec<HOp> = Vec::new();
     for r in hist {
         let kind = match (&r.op, &r.res) {
-            (Op::Put { k, u, .. }, Res::Put(_)) => HKind::Put { k: key_of(*k).0, val: *u },
+            (Op::Put { k, u, .. }, Res::Put(Ok(()))) => HKind::Put { k: key_of(*k).0, val: *u },
+            (Op::Put { k, .. }, Res::Put(Err(_))) => HKind::Rejected { k: key_of(*k).0 },
             (Op::Get { k }, Res::Get(None)) => HKind::Get { k: key_of(*k).0, seen: 0 },
             (Op::Get { k }, Res::Get(Some(d))) => {
                 let (i, key, kc) = key_of(*k);
-                match written[i].get(&canon_data(d)) {
+                let canon = canon_data(d);
+                if let (None, Some(u)) = (written[i].get(&canon), rejected[i].get(&canon)) {
+                    // "a read never returns a value that was never written": the
+                    // put of this value returned an error
+                    let on_key: Vec<&Rec> = hist.iter().filter(|x| op_key(&x.op) == Some(i)).collect();
+                    return Judged {
+                        violation: Some(Violation {
+                            class: format!("read-value-of-rejected-write:{}", kc.name()),
+                            detail: format!(
+                                "get({key}) at [{}..{}] returned the value #{u} although the put of #{u} returned an error (a rejected write must not be visible to readers); operations on the key: {}",
+                                r.inv,
+                                r.ret,
+                                describe(&on_key)
+                            ),
+                        }),
+                        inconclusive: false,
+                        cache_entry_lost: false,
+                    };
+                }
+                match written[i].get(&canon) {
                     Some(u) => HKind::Get { k: i, seen: *u },
                     None => {
                         // "a read never returns a value that was never written, a
@@ -502,6 +737,7 @@ fn judge(hist: &[Rec], verdict: Mode) -> Judged {
                     },
                 }
             },
+            (Op::Del { k }, Res::Del(Err(e))) if is_log_error(e) => HKind::Rejected { k: key_of(*k).0 },
             (Op::Del { k }, Res::Del(res)) => HKind::Del { k: key_of(*k).0, ok: res.is_ok() },
             (Op::Exists { k }, Res::Exists(b)) => HKind::Exists { k: key_of(*k).0, seen: *b },
             (Op::Scan { p }, Res::Scan(keys)) => {
@@ -528,6 +764,7 @@ fn judge(hist: &[Rec], verdict: Mode) -> Judged {
                 }
                 HKind::Scan { mask: prefix_mask(prefix), seen }
             },
+            (Op::Sync, Res::Sync(_)) => HKind::Nop,
             _ => unreachable!("result kind matches operation kind"),
         };
         hops.push(HOp { inv: r.inv, ret: r.ret, kind });
@@ -551,11 +788,30 @@ fn judge(hist: &[Rec], verdict: Mode) -> Judged {
             Lin::Budget => inconclusive = true,
             Lin::No { best } => {
                 // "consistent with some single order of all operations that respects real time"
-                let diag = match check_lin(&sub, Mode { relax_delete: true, ..verdict }, BUDGET) {
-                    Lin::Yes => "delete-result",
-                    _ => "order",
+                let has_rejected = sub.iter().any(|o| matches!(o.kind, HKind::Rejected { .. }));
+                let diag = if has_rejected && !explained_by_nonatomic_emb_puts(i, &sub, verdict) && matches!(check_lin(&sub, Mode { taint: 1 << i, ..verdict }, BUDGET), Lin::Yes) {
+                    "rejected-write"
+                } else if matches!(check_lin(&sub, Mode { relax_delete: true, ..verdict }, BUDGET), Lin::Yes) {
+                    "delete-result"
+                } else {
+                    "order"
                 };
                 let recs: Vec<&Rec> = idx.iter().map(|j| &hist[*j]).collect();
+                if diag == "rejected-write" {
+                    return Judged {
+                        violation: Some(Violation {
+                            class: format!("rejected-write-visible:{}", KEYS[i].1.name()),
+                            detail: format!(
+                                "a write on {} that returned an error left an effect readers can see: the {} operations on the key have no single order when the rejected write has no effect, and have one when it may change the key: {}",
+                                KEYS[i].0,
+                                sub.len(),
+                                describe(&recs)
+                            ),
+                        }),
+                        inconclusive,
+                        cache_entry_lost,
+                    };
+                }
                 return Judged {
                     violation: Some(Violation {
                         class: format!("nonlinearizable:{}:{diag}", KEYS[i].1.name()),
@@ -573,14 +829,62 @@ fn judge(hist: &[Rec], verdict: Mode) -> Judged {
             },
         }
     }
+    let scans: Vec<usize> = (0..hops.len()).filter(|j| matches!(hops[*j].kind, HKind::Scan { .. })).collect();
+    // (a') per key, with what the scans say about the key: an atomic scan is in
+    // particular a read of each single key under its prefix somewhere between
+    // its invocation and its return. This is weaker than (b) — it does not ask
+    // the keys of one listing to be read at the same instant — so it holds even
+    // for a scan that visits its sources one after the other; what fails here is
+    // not explained by the scan being a non-atomic multi-key read.
+    for i in 0..NK {
+        let views: Vec<usize> = scans.iter().copied().filter(|j| matches!(hops[*j].kind, HKind::Scan { mask, .. } if mask & (1 << i) != 0)).collect();
+        let idx: Vec<usize> = (0..hops.len()).filter(|j| kind_key(&hops[*j].kind) == Some(i) || views.contains(j)).collect();
+        if views.is_empty() || idx.len() == views.len() {
+            continue;
+        }
+        let sub: Vec<HOp> = idx
+            .iter()
+            .map(|j| match hops[*j].kind {
+                HKind::Scan { seen, .. } => HOp { inv: hops[*j].inv, ret: hops[*j].ret, kind: HKind::Exists { k: i, seen: seen & (1 << i) != 0 } },
+                _ => hops[*j].clone(),
+            })
+            .collect();
+        match check_lin(&sub, verdict, BUDGET) {
+            Lin::Yes => {},
+            Lin::Budget => inconclusive = true,
+            Lin::No { best } => {
+                let has_rejected = sub.iter().any(|o| matches!(o.kind, HKind::Rejected { .. }));
+                let recs: Vec<&Rec> = idx.iter().map(|j| &hist[*j]).collect();
+                let class = if has_rejected && !explained_by_nonatomic_emb_puts(i, &sub, verdict) && matches!(check_lin(&sub, Mode { taint: 1 << i, ..verdict }, BUDGET), Lin::Yes) {
+                    format!("rejected-write-visible:{}", KEYS[i].1.name())
+                } else {
+                    format!("nonlinearizable:{}:scan-view", KEYS[i].1.name())
+                };
+                return Judged {
+                    violation: Some(Violation {
+                        class,
+                        detail: format!(
+                            "the operations on {} are explainable on their own, but not together with what the prefix scans covering the key report about it (each scan taken as a read of this one key somewhere between its invocation and return; at most {best} of {} can be ordered): {}",
+                            KEYS[i].0,
+                            sub.len(),
+                            describe(&recs)
+                        ),
+                    }),
+                    inconclusive,
+                    cache_entry_lost,
+                };
+            },
+        }
+    }
     // (b) whole history including scans ("prefix scan ... consistent with some
     // single order of all operations")
-    let scans: Vec<usize> = (0..hops.len()).filter(|j| matches!(hops[*j].kind, HKind::Scan { .. })).collect();
     if !scans.is_empty() {
         match check_lin(&hops, verdict, BUDGET) {
             Lin::Yes => {},
             Lin::Budget => inconclusive = true,
             Lin::No { .. } => {
+                // (what a scan shows of a rejected write was judged per key in (a'):
+                // what fails here is the scan as an atomic multi-key read)
                 // blame: the first scan that alone (with all key operations) is not linearizable
                 let mut blame: Option<usize> = None;
                 for s in &scans {
@@ -595,8 +899,11 @@ fn judge(hist: &[Rec], verdict: Mode) -> Judged {
                 }
                 let (pname, detail) = match blame {
                     Some(s) if hist[s].t == FINAL_T => {
-                        // the quiescent scan contradicts the quiescent exists() calls before it
+                        // the quiescent scan contradicts the quiescent exists() calls around it
                         let r = &hist[s];
+                        let Op::Scan { p } = &r.op else { unreachable!() };
+                        let (prefix, pname) = prefix_of(*p);
+                        let mask = prefix_mask(prefix);
                         let listed: Vec<&String> = match &r.res {
                             Res::Scan(v) => v.iter().collect(),
                             _ => Vec::new(),
@@ -606,28 +913,36 @@ fn judge(hist: &[Rec], verdict: Mode) -> Judged {
                         let mut what = String::new();
                         for x in hist.iter().filter(|x| x.t == FINAL_T) {
                             if let (Op::Exists { k }, Res::Exists(b)) = (&x.op, &x.res) {
-                                let (_, key, kc) = key_of(*k);
+                                let (i, key, kc) = key_of(*k);
+                                if mask & (1 << i) == 0 {
+                                    continue;
+                                }
                                 let l = listed.iter().any(|n| n.as_str() == key);
-                                if l && !*b {
+                                // the cache may drop an entry between the two reads (in that order only)
+                                let exists_first = x.ret < r.inv;
+                                let droppable = kc == Kc::Cache && verdict.cache_evicts;
+                                if l && !*b && !(droppable && !exists_first) {
                                     ghosts.insert(kc.name());
-                                    what.push_str(&format!("[{key}: exists=false, get fails, but scan lists it] "));
-                                } else if !l && *b && !(kc == Kc::Cache && verdict.cache_evicts) {
+                                    what.push_str(&format!("[{key}: exists=false, get fails, but the scan lists it] "));
+                                } else if !l && *b && !(droppable && exists_first) {
                                     missed.insert(kc.name());
-                                    what.push_str(&format!("[{key}: exists=true but scan does not list it] "));
+                                    what.push_str(&format!("[{key}: exists=true but the scan does not list it] "));
                                 }
                             }
                         }
                         // one key class per verdict keeps the set of classes closed
                         let class = if let Some(g) = ghosts.iter().next() {
                             format!("quiescent-scan-lists-absent-key:{g}")
+                        } else if let Some(m) = missed.iter().next() {
+                            format!("quiescent-scan-misses-key:{m}")
                         } else {
-                            format!("quiescent-scan-misses-key:{}", missed.iter().next().unwrap_or(&"none"))
+                            format!("nonlinearizable-scan:{pname}:quiescent")
                         };
                         let all: Vec<&Rec> = hist.iter().filter(|x| is_write(&x.op) || x.t == FINAL_T).collect();
                         return Judged {
                             violation: Some(Violation {
                                 class,
-                                detail: format!("with all threads joined, scan(\"\") returned {} although {what}; writes and quiescent reads: {}", res_short(&r.res), describe(&all)),
+                                detail: format!("with all threads joined, scan({prefix:?}) returned {} although {what}; writes and quiescent reads: {}", res_short(&r.res), describe(&all)),
                             }),
                             inconclusive,
                             cache_entry_lost,
@@ -705,7 +1020,7 @@ fn judge(hist: &[Rec], verdict: Mode) -> Judged {
 fn op_key(op: &Op) -> Option<usize> {
     match op {
         Op::Put { k, .. } | Op::Get { k } | Op::Del { k } | Op::Exists { k } => Some(key_of(*k).0),
-        Op::Scan { .. } => None,
+        Op::Scan { .. } | Op::Sync => None,
     }
 }
 
@@ -767,6 +1082,74 @@ fn probes(ctx: &Arc<RunCtx>, case: &Case, hist: &[Rec]) -> bool {
             ctx.probe("overlap_scan_all_writes_two_shards");
         }
     }
+    // ---- scan prefix shapes (thread scans only)
+    for s in th.iter() {
+        let (Op::Scan { p }, Res::Scan(keys)) = (&s.op, &s.res) else { continue };
+        let prefix = prefix_of(*p).0;
+        if prefix.is_empty() {
+            continue;
+        }
+        // a proper prefix of a router class prefix that listed a key of that class
+        let sub_of: Vec<&&str> = CLASS_PREFIXES.iter().filter(|c| c.len() > prefix.len() && c.starts_with(prefix)).collect();
+        if sub_of.iter().any(|c| keys.iter().any(|k| k.starts_with(**c))) {
+            ctx.probe("scan_short_prefix_lists_class_key");
+            if keys.iter().any(|k| k.starts_with("_cache:")) {
+                ctx.probe("scan_short_prefix_lists_cache_key");
+            }
+            if keys.iter().any(|k| !CLASS_PREFIXES.iter().any(|c| k.starts_with(c))) {
+                ctx.probe("scan_short_prefix_lists_two_classes");
+            }
+        }
+        if CLASS_PREFIXES.iter().any(|c| prefix.len() > c.len() && prefix.starts_with(c)) && !keys.is_empty() {
+            ctx.probe("scan_long_prefix_lists_key");
+        }
+        if keys.is_empty() && prefix_mask(prefix) == 0 {
+            ctx.probe("scan_prefix_matching_nothing");
+        }
+    }
+    // ---- rejected writes (the log refused the record)
+    for w in th.iter() {
+        let rejected = match &w.res {
+            Res::Put(Err(_)) => true,
+            Res::Del(Err(e)) => is_log_error(e),
+            _ => false,
+        };
+        if !rejected {
+            continue;
+        }
+        ctx.probe("rejected_write");
+        let k = op_key(&w.op);
+        if hist.iter().any(|r| r.inv > w.ret && op_key(&r.op) == k && !is_write(&r.op)) {
+            ctx.probe("rejected_write_then_read_of_key");
+        }
+        if th.iter().any(|r| r.t != w.t && op_key(&r.op) == k && overlap(r, w) && !is_write(&r.op)) {
+            ctx.probe("rejected_write_overlaps_read_of_key");
+        }
+        if th.iter().any(|r| r.ret < w.inv && op_key(&r.op) == k && matches!(r.res, Res::Put(Ok(())))) {
+            ctx.probe("rejected_write_after_accepted_write_of_key");
+        }
+    }
+    // ---- Bloom filter: first put of a key (not yet in the filter) overlapping a
+    // scan that covers it, followed by a point read of the key
+    if case.build.bloom.is_some() {
+        for w in th.iter().filter(|w| matches!(w.op, Op::Put { .. })) {
+            let k = op_key(&w.op).unwrap();
+            let first = !hist.iter().any(|r| r.inv < w.inv && matches!(r.op, Op::Put { .. }) && op_key(&r.op) == Some(k));
+            if !first {
+                continue;
+            }
+            for s in th.iter().filter(|s| s.t != w.t && overlap(s, w)) {
+                let Op::Scan { p } = &s.op else { continue };
+                if prefix_mask(prefix_of(*p).0) & (1 << k) == 0 {
+                    continue;
+                }
+                ctx.probe("bloom_first_put_overlaps_scan");
+                if th.iter().any(|r| r.inv > s.ret && overlap(r, w) && op_key(&r.op) == Some(k) && matches!(r.op, Op::Get { .. } | Op::Exists { .. })) {
+                    ctx.probe("bloom_first_put_overlaps_scan_then_point_read");
+                }
+            }
+        }
+    }
     concurrent
 }
 
@@ -816,12 +1199,17 @@ impl Scenario for C11 {
             let j = rng.usize_below(keys.len());
             keys.remove(j);
         }
-        let mut prefixes: Vec<u8> = vec![0];
+        // scan prefixes: every shape that matches at least one key in play
+        // (proper prefixes of class prefixes, class prefixes, whole keys) ...
+        let mut prefixes: Vec<u8> = Vec::new();
         for (pi, (p, _)) in PREFIXES.iter().enumerate().skip(1) {
             if keys.iter().any(|k| KEYS[*k as usize].0.starts_with(p)) {
                 prefixes.push(pi as u8);
             }
         }
+        // ... plus one that matches nothing, plus one of a class not in play
+        prefixes.push(rng.range(FIRST_NONE_PREFIX as u64, PREFIXES.len() as u64 - 1) as u8);
+        prefixes.push(rng.range(1, PREFIXES.len() as u64 - 1) as u8);
         let mut u = 0u32;
         let mut setup = Vec::new();
         for k in &keys {
@@ -844,6 +1232,44 @@ impl Scenario for C11 {
             _ => rng.range(7, 8),
             }
         } as usize;
+        // ---- how the store is built
+        let mut build = Build::default();
+        if rng.chance(2, 5) {
+            // filter sizes from "every key collides" to the default
+            build.bloom = Some(*rng.pick(&[(0u32, 0u16), (1, 500), (4, 100), (16, 10), (1000, 10), (10_000, 1)]));
+        }
+        if durable {
+            build.reopen = rng.chance(1, 4);
+        } else {
+            if rng.chance(1, 4) {
+                build.instr = Some(*rng.pick(&[1u32, 1, 2, 100]));
+            }
+            if build.bloom.is_none() && build.instr.is_none() && rng.chance(1, 4) {
+                build.capacity = Some(*rng.pick(&[0u32, 1, 64, 100_000]));
+            }
+        }
+        // ---- log configuration
+        let mut wal = WalKnobs::default();
+        if durable {
+            wal.sync = match rng.below(6) {
+                0..=2 => 0,
+                3 => 1,
+                4 => rng.range(2, 6) as u8,
+                _ => 255,
+            };
+            wal.checksums = !rng.chance(1, 6);
+            wal.power_loss = rng.chance(1, 3);
+            // a hard size limit somewhere inside the run: the log fills up and
+            // rejects later writes (single-thread conformance runs included:
+            // a rejected write has no effect there either)
+            // (rarer with emb: keys: their rejected puts hit a known finding,
+            // which ends the run before anything else is judged)
+            let emb = classes.contains(&Kc::Emb);
+            if rng.chance(1, if emb { 10 } else { 3 }) {
+                wal.max_size = if emb { *rng.pick(&[600u64, 2000, 3600, 5200, 9000]) } else { *rng.pick(&[40u64, 120, 200, 300, 450, 700]) };
+            }
+        }
+        let sync_ops = durable && (wal.sync != 0 || rng.chance(1, 8));
         let cap: u64 = if rng.chance(1, 2) { 12 } else { 24 };
         let total = rng.range(n_threads as u64, cap.max(n_threads as u64)) as usize;
         let scan_w = *rng.pick(&[0u64, 2, 3]);
@@ -852,7 +1278,25 @@ impl Scenario for C11 {
             let t = if i < n_threads { i } else { rng.usize_below(n_threads) };
             let k = *rng.pick(&keys);
             let r = rng.below(20);
-            let op = if r < 7 {
+            // a client that scans often goes on to read what the listing covers
+            let after_scan: Option<u8> = match threads[t].last() {
+                Some(Op::Scan { p }) if rng.chance(1, 2) => {
+                    let under: Vec<u8> = keys.iter().copied().filter(|k| KEYS[*k as usize].0.starts_with(prefix_of(*p).0)).collect();
+                    if under.is_empty() {
+                        None
+                    } else {
+                        Some(*rng.pick(&under))
+                    }
+                },
+                _ => None,
+            };
+            let op = if let Some(k) = after_scan {
+                if rng.chance(1, 2) {
+                    Op::Get { k }
+                } else {
+                    Op::Exists { k }
+                }
+            } else if r < 7 {
                 u += 1;
                 Op::Put { k, v: rng.below(10) as u8, u }
             } else if r < 11 {
@@ -862,15 +1306,32 @@ impl Scenario for C11 {
             } else if r < 17 {
                 Op::Exists { k }
             } else if r < 17 + scan_w {
-                Op::Scan { p: if rng.chance(1, 3) { 0 } else { *rng.pick(&prefixes) } }
+                Op::Scan { p: if rng.chance(1, 4) { 0 } else { *rng.pick(&prefixes) } }
+            } else if sync_ops && r == 19 {
+                Op::Sync
             } else {
                 Op::Get { k }
             };
             threads[t].push(op);
         }
-        let stick = *rng.pick(&[0u64, 30, 60, 85, 95]);
-        let schedule = sched::gen_schedule(rng, 320, stick);
-        Case { durable, setup, threads, schedule }
+        // schedules: random walks of varying stickiness, or (1 in 3) bounded
+        // preemption: one thread runs until one of 1-3 preemption points, where
+        // another thread is picked and runs on (most atomicity bugs need few
+        // preemptions, but at an exact place and with a long run after it)
+        let schedule = if rng.chance(1, 3) {
+            let mut sch = vec![sched::STAY; 320];
+            sch[0] = rng.below(16) as u8;
+            let horizon = (total as u64 * *rng.pick(&[2u64, 4, 8])).clamp(4, 300);
+            for _ in 0..rng.range(1, 3) {
+                let at = rng.range(1, horizon) as usize;
+                sch[at] = rng.below(16) as u8;
+            }
+            sch
+        } else {
+            let stick = *rng.pick(&[0u64, 30, 60, 85, 95]);
+            sched::gen_schedule(rng, 320, stick)
+        };
+        Case { durable, build, wal, setup, threads, schedule }
     }
 
     fn run(&self, case: &Case, ctx: &Arc<RunCtx>) -> RunOut {
@@ -879,9 +1340,24 @@ impl Scenario for C11 {
         let mut out = RunOut::default();
         let dir = ctx.node_dir(NODE);
         let wal = format!("{dir}/store.wal");
-        let cfg = WalConfig::default(); // SyncMode::Immediate: every record is fsynced
+        let cfg = case.wal.config();
+        let bloom_params = |b: (u32, u16)| -> (usize, f64) {
+            // expected_items 0 means "the default filter" (10 000 items, 1 %)
+            if b.0 == 0 {
+                (10_000, 0.01)
+            } else {
+                (b.0 as usize, f64::from(b.1.clamp(1, 999)) / 1000.0)
+            }
+        };
         let store = if case.durable {
-            match TensorStore::open_durable(&wal, cfg.clone()) {
+            let r = match case.build.bloom {
+                Some(b) => {
+                    let (n, fp) = bloom_params(b);
+                    TensorStore::open_durable_with_bloom(&wal, cfg.clone(), n, fp)
+                },
+                None => TensorStore::open_durable(&wal, cfg.clone()),
+            };
+            match r {
                 Ok(s) => s,
                 Err(e) => {
                     out.harness_error = Some(format!("open_durable: {e}"));
@@ -889,12 +1365,63 @@ impl Scenario for C11 {
                 },
             }
         } else {
-            TensorStore::new()
+            match (case.build.bloom, case.build.instr, case.build.capacity) {
+                (Some((0, _)), None, _) => TensorStore::with_default_bloom_filter(),
+                (Some(b), None, _) => {
+                    let (n, fp) = bloom_params(b);
+                    TensorStore::with_bloom_filter(n, fp)
+                },
+                (Some(b), Some(rate), _) => {
+                    let (n, fp) = bloom_params(b);
+                    TensorStore::with_bloom_and_instrumentation(n, fp, rate)
+                },
+                (None, Some(rate), _) => TensorStore::with_instrumentation(rate),
+                (None, None, Some(c)) => TensorStore::with_capacity(c as usize),
+                (None, None, None) => TensorStore::new(),
+            }
         };
+        if case.build.bloom.is_some() != store.has_bloom_filter() || (!case.durable && case.build.instr.is_some() != store.has_instrumentation()) {
+            out.harness_error = Some("the store was not built the way the case says".into());
+            return out;
+        }
+        // a write may be rejected only by a log with a hard size limit
+        let may_reject = case.durable && case.wal.max_size > 0;
         let hist: Arc<Mutex<Vec<Rec>>> = Arc::new(Mutex::new(Vec::new()));
-        for op in &case.setup {
+        // setup; with `reopen` the operations on `_cache:` keys run after the
+        // rebuild (the cache is not durable: recovery would drop what they wrote)
+        let reopen = case.durable && case.build.reopen;
+        for op in case.setup.iter().filter(|op| !(reopen && op_key(op).is_some_and(|k| KEYS[k].1 == Kc::Cache))) {
             run_op(ctx, &store, case.durable, SETUP_T, op, &hist);
         }
+        let store = if reopen {
+            if let Err(e) = store.sync() {
+                out.harness_error = Some(format!("sync before the rebuild: {e}"));
+                return out;
+            }
+            drop(store);
+            let r = match case.build.bloom {
+                Some(b) => {
+                    let (n, fp) = bloom_params(b);
+                    TensorStore::recover_with_bloom(&wal, &cfg, None, n, fp)
+                },
+                None => TensorStore::recover(&wal, &cfg, None),
+            };
+            let s = match r {
+                Ok(s) => s,
+                Err(e) => {
+                    out.harness_error = Some(format!("recover after the setup (no concurrency yet: C02's subject): {e}"));
+                    return out;
+                },
+            };
+            ctx.event("store rebuilt from the log after the setup");
+            ctx.probe("threads_on_recovered_store");
+            for op in case.setup.iter().filter(|op| op_key(op).is_some_and(|k| KEYS[k].1 == Kc::Cache)) {
+                run_op(ctx, &s, case.durable, SETUP_T, op, &hist);
+            }
+            s
+        } else {
+            store
+        };
         let mut bodies: Vec<sched::Body> = Vec::new();
         let mut tid = 0usize;
         for ops in &case.threads {
@@ -930,13 +1457,27 @@ impl Scenario for C11 {
                 ctx.probe(site);
             }
         }
-        // quiescent reads on this thread: what "readers last saw"
+        // quiescent reads on this thread: what "readers last saw". Order: the
+        // prefixes the threads scanned, then get/exists of every touched key,
+        // then scan("") (a `_cache:` entry may legally vanish, never come back)
         let touched: BTreeSet<usize> = case
             .setup
             .iter()
             .chain(case.threads.iter().flatten())
             .filter_map(op_key)
             .collect();
+        let scanned: BTreeSet<u8> = case
+            .threads
+            .iter()
+            .flatten()
+            .filter_map(|op| match op {
+                Op::Scan { p } if *p as usize % PREFIXES.len() != 0 => Some((*p as usize % PREFIXES.len()) as u8),
+                _ => None,
+            })
+            .collect();
+        for p in &scanned {
+            run_op(ctx, &store, case.durable, FINAL_T, &Op::Scan { p: *p }, &hist);
+        }
         for k in &touched {
             run_op(ctx, &store, case.durable, FINAL_T, &Op::Get { k: *k as u8 }, &hist);
             run_op(ctx, &store, case.durable, FINAL_T, &Op::Exists { k: *k as u8 }, &hist);
@@ -945,11 +1486,17 @@ impl Scenario for C11 {
         let hist_v: Vec<Rec> = hist.lock().unwrap_or_else(|p| p.into_inner()).clone();
         for r in &hist_v {
             match &r.res {
-                Res::Put(Err(e)) => {
+                // a put fails only when the log refuses the record, and the log
+                // refuses only for its size limit (no disk faults in this scenario)
+                Res::Put(Err(e)) if !(may_reject && is_log_error(e) && KEYS[op_key(&r.op).unwrap_or(0)].1 != Kc::Cache) => {
                     out.harness_error = Some(format!("{} failed: {e}", op_short(&r.op)));
                     return out;
                 },
-                Res::Del(Err(e)) if e.contains("WAL error") => {
+                Res::Del(Err(e)) if is_log_error(e) && !may_reject => {
+                    out.harness_error = Some(format!("{} failed: {e}", op_short(&r.op)));
+                    return out;
+                },
+                Res::Sync(Err(e)) => {
                     out.harness_error = Some(format!("{} failed: {e}", op_short(&r.op)));
                     return out;
                 },
@@ -958,6 +1505,9 @@ impl Scenario for C11 {
         }
         let concurrent = probes(ctx, case, &hist_v);
         out.nontrivial = concurrent && n_threads >= 2;
+        if case.durable && case.wal.sync != 0 && hist_v.iter().any(|r| r.t < SETUP_T && r.op == Op::Sync) {
+            ctx.probe("sync_op_in_batched_or_manual_mode");
+        }
         // fingerprint: completion order of (thread, op kind, key)
         let mut by_ret: Vec<&Rec> = hist_v.iter().filter(|r| r.t < SETUP_T).collect();
         by_ret.sort_by_key(|r| r.ret);
@@ -979,6 +1529,14 @@ impl Scenario for C11 {
             out.observations.push("observation (no verdict: the cache is transient by design): the operations on one `_cache:` key are explainable only by the cache dropping the entry although the ring was nowhere near its capacity".into());
         }
         if let Some(v) = j.violation {
+            if n_threads <= 1 && (v.class.starts_with("rejected-write-visible:") || v.class.starts_with("read-value-of-rejected-write:")) {
+                // one thread is outside C11's quantifier (2-8 threads): no verdict.
+                // Not a model difference either (the model of a rejected write is
+                // "no effect", which is what the statement demands): an observation.
+                ctx.probe("single_thread_rejected_write_visible");
+                out.observations.push(format!("observation (single thread, outside the quantifier: no verdict): {}", v.class));
+                return out;
+            }
             if n_threads <= 1 {
                 // a sequential-semantics difference is not a C11 violation
                 out.harness_error = Some(format!(
@@ -994,14 +1552,44 @@ impl Scenario for C11 {
             ctx.probe("model_conformance_run");
         }
         ctx.probe("history_checked");
+        if case.build.bloom.is_some() && n_threads >= 2 {
+            ctx.probe("history_checked_bloom_store");
+        }
 
         // ---- oracle (2): "the order in which concurrent writes become durable is
         // the same order in which they took effect in memory, so a crash after
         // quiescence recovers the state readers last saw"
         if case.durable {
             let mem = dump_store_data(&store, true);
-            drop(store);
-            let rec = match TensorStore::recover(&wal, &cfg, None) {
+            // batched / manual sync: durability is promised from the sync on
+            if case.wal.sync != 0 {
+                if let Err(e) = store.sync() {
+                    out.harness_error = Some(format!("final sync: {e}"));
+                    return out;
+                }
+            }
+            if case.wal.power_loss {
+                // power loss after quiescence: the process dies (nothing it still
+                // buffers reaches the disk), every file is cut back to its fsynced length
+                ctx.kill(NODE);
+                drop(store);
+                let cuts = ctx.crash_image(NODE, true, |_, durable, _| durable);
+                ctx.event(&format!("power loss after quiescence: {} file(s) cut", cuts.len()));
+                ctx.fault_fired("power_loss_after_quiescence");
+                if !cuts.is_empty() {
+                    ctx.probe("power_loss_cut_unsynced_bytes");
+                }
+            } else {
+                drop(store);
+            }
+            let rec = match case.build.bloom {
+                Some(b) => {
+                    let (n, fp) = bloom_params(b);
+                    TensorStore::recover_with_bloom(&wal, &cfg, None, n, fp)
+                },
+                None => TensorStore::recover(&wal, &cfg, None),
+            };
+            let rec = match rec {
                 Ok(s) => s,
                 Err(e) => {
                     out.violation = Some(Violation {
@@ -1013,6 +1601,14 @@ impl Scenario for C11 {
             };
             let got = dump_store_data(&rec, true);
             ctx.probe("recovered_and_compared");
+            match case.wal.sync {
+                0 => {},
+                255 => ctx.probe("recovered_and_compared_manual_sync"),
+                _ => ctx.probe("recovered_and_compared_batched_sync"),
+            }
+            if may_reject && hist_v.iter().any(|r| matches!(&r.res, Res::Put(Err(_)))) {
+                ctx.probe("recovered_and_compared_after_rejected_write");
+            }
             let (m, g) = (canon_map(&mem), canon_map(&got));
             if m != g {
                 let mut kcs: BTreeSet<&'static str> = BTreeSet::new();
@@ -1037,7 +1633,9 @@ impl Scenario for C11 {
                     // one key class per verdict keeps the set of classes closed
                     class: format!("durable-state-differs-from-memory:{}", kcs.iter().next().unwrap_or(&"none")),
                     detail: format!(
-                        "after quiescence and a clean drop, recovery from the log yields a different state than readers last saw: {diff}; writes: {}",
+                        "after quiescence{} and a {}, recovery from the log yields a different state than readers last saw: {diff}; writes: {}",
+                        if case.wal.sync != 0 { ", a sync" } else { "" },
+                        if case.wal.power_loss { "power loss" } else { "clean drop" },
                         describe(&writes)
                     ),
                 });
@@ -1074,6 +1672,41 @@ impl Scenario for C11 {
             let mut c = case.clone();
             c.durable = false;
             v.push(c);
+        }
+        // simpler construction / log configuration, one knob at a time
+        if case.build != Build::default() {
+            let mut c = case.clone();
+            c.build = Build::default();
+            v.push(c);
+            for f in 0..4 {
+                let mut c = case.clone();
+                match f {
+                    0 => c.build.bloom = None,
+                    1 => c.build.instr = None,
+                    2 => c.build.capacity = None,
+                    _ => c.build.reopen = false,
+                }
+                if c.build != case.build {
+                    v.push(c);
+                }
+            }
+        }
+        if case.wal != WalKnobs::default() {
+            let mut c = case.clone();
+            c.wal = WalKnobs::default();
+            v.push(c);
+            for f in 0..4 {
+                let mut c = case.clone();
+                match f {
+                    0 => c.wal.max_size = 0,
+                    1 => c.wal.sync = 0,
+                    2 => c.wal.checksums = true,
+                    _ => c.wal.power_loss = false,
+                }
+                if c.wal != case.wal {
+                    v.push(c);
+                }
+            }
         }
         // schedule: shorter, then fewer explicit picks
         let n = case.schedule.len();
@@ -1124,28 +1757,50 @@ impl Scenario for C11 {
             "router.put.emb.after_slab",
             "router.delete.after_exists",
             "metadata.scan_all.before_shard",
+            // store construction variants
+            "history_checked_bloom_store",
+            "store.bloom.add",
+            "bloom_first_put_overlaps_scan_then_point_read",
+            "threads_on_recovered_store",
+            // scan prefix shapes
+            "scan_short_prefix_lists_class_key",
+            "scan_short_prefix_lists_cache_key",
+            "scan_short_prefix_lists_two_classes",
+            "scan_long_prefix_lists_key",
+            "scan_prefix_matching_nothing",
+            // log configuration
+            "rejected_write",
+            "rejected_write_then_read_of_key",
+            "rejected_write_overlaps_read_of_key",
+            "rejected_write_after_accepted_write_of_key",
+            "recovered_and_compared_after_rejected_write",
+            "sync_op_in_batched_or_manual_mode",
+            "recovered_and_compared_batched_sync",
+            "recovered_and_compared_manual_sync",
         ]
     }
 
     fn rule(&self) -> String {
-        "A case is a store mode (plain / durable log on the simulated disk), a sequential setup, 2-8 thread programs of put/get/delete/exists/scan (durable forms when the log is on) with <=24 operations in total on 1-4 contended keys drawn from all key classes (plain, emb:, node:/edge:, table:, _cache:), and an explicit schedule (320 picks) that decides which thread runs at every operation boundary and every hook site inside the store. After the threads joined, quiescent reads (scan(\"\"), get and exists of every touched key) are appended to the history; the whole invoke/return history is checked for linearizability (per key, then with scans) and, with the log, the store is dropped, recovered and compared with memory. Non-trivial: at least two operations of different threads on the same key (or a scan and a write under its prefix) overlapped in time. Distinct: hash of (completion order of thread operations, scheduler trace).".into()
+        "A case is a store construction variant (new / with_capacity / with_bloom_filter / with_default_bloom_filter / with_instrumentation / with_bloom_and_instrumentation; open_durable / open_durable_with_bloom on the simulated disk, optionally dropped and rebuilt with recover / recover_with_bloom after the setup), for durable stores a log configuration (sync mode immediate / batched(n) / manual, checksums on/off, default size or a hard size limit with auto_rotate off that makes later durable writes fail, clean drop or power loss after quiescence), a sequential setup, 2-8 thread programs of put/get/delete/exists/scan/sync (durable forms when the log is on) with <=24 operations in total on 1-4 contended keys drawn from all key classes (plain, emb:, node:/edge:, table:, _cache:, and plain keys sharing a proper prefix of a class prefix), scan prefixes of every shape (empty, proper prefixes of class prefixes, class prefixes, whole keys, prefixes matching nothing), and an explicit schedule (320 picks) that decides which thread runs at every operation boundary, every hook site inside the store, every slab-lock acquisition and every Bloom-filter update. After the threads joined, quiescent reads (the scanned prefixes, get and exists of every touched key, scan(\"\")) are appended to the history; the whole invoke/return history is checked for linearizability (per key, then with scans; a write that returned an error has no effect) and, with the log, the store is synced (batched/manual), dropped or power-cut, recovered and compared with memory. Non-trivial: at least two operations of different threads on the same key (or a scan and a write under its prefix) overlapped in time. Distinct: hash of (completion order of thread operations, scheduler trace).".into()
     }
 
     fn components(&self) -> Value {
         json!({
-            "real": ["tensor_store::TensorStore (put, get, delete, exists, scan, open_durable, put_durable, delete_durable, recover)", "SlabRouter", "MetadataSlab (16 shards)", "EntityIndex", "EmbeddingSlab", "CacheRing", "TensorWal (SyncMode::Immediate)"],
-            "simulated": ["thread interleaving: baton scheduler over real OS threads, switches at operation boundaries and neumann_verif hook sites only", "disk: interposed libc, files on tmpfs"],
+            "real": ["tensor_store::TensorStore (all in-memory and durable constructors except the snapshot loaders; put, get, delete, exists, scan, put_durable, delete_durable, sync, recover, recover_with_bloom)", "BloomFilter", "ShardAccessTracker", "SlabRouter", "MetadataSlab (16 shards)", "EntityIndex", "EmbeddingSlab", "CacheRing", "TensorWal (SyncMode::Immediate / Batched / Manual, size limit with auto_rotate off)"],
+            "simulated": ["thread interleaving: baton scheduler over real OS threads, switches at operation boundaries, neumann_verif hook sites, slab-lock acquisitions and Bloom-filter updates only", "disk: interposed libc, files on tmpfs; power loss after quiescence cuts every file to its fsynced length"],
             "stub": []
         })
     }
 
     fn assumptions(&self) -> Vec<String> {
         vec![
-            "interleavings are explored at the granularity of the hook sites (between critical sections); code between two hook sites runs without interruption, so data races inside one critical section and weak-memory effects are not explored".into(),
+            "interleavings are explored at the granularity of the hook sites and lock acquisitions (between critical sections); code between two schedule points runs without interruption, so data races inside one critical section and weak-memory effects are not explored".into(),
             "emb: keys are always written with a full 384-dim `_embedding`, other keys never carry `_embedding` (sequential-semantics quirks of the store are kept out of the workload)".into(),
             "the cache ring never reaches its capacity (no eviction), so `_cache:` keys behave as registers; they are ignored in the durable comparison".into(),
-            "the durable configuration uses SyncMode::Immediate and no checkpoint / rotation; every write of a durable run is a durable write".into(),
+            "no checkpoint and no rotation (auto_rotate with a small limit loses records: C02's known finding); a hard size limit is the only reason a write is rejected (no disk faults: outside the quantifier); every write of a durable run is a durable write".into(),
+            "stores loaded from snapshots (load_snapshot*) are not among the construction variants: the snapshot formats store 384-dim embeddings lossily, which is C07's subject".into(),
             "a delete that returns NotFound is modelled as having no effect; Ok/NotFound of delete is part of the judged result (reported under its own class ...:delete-result)".into(),
+            "in batched / manual sync modes the log is synced once after quiescence before the drop / power loss (durability is promised from the sync on)".into(),
         ]
     }
 
